@@ -570,6 +570,10 @@ def case_run(ctx, case, scratch: C.Scratch, full: bool = True):
         ctx.count("xlsx:not-representable")
 
     roundtrip_oracle(ctx, case, aw_ref)
+    if "xlsx" in rendered and rng.random() < case.get("p_sheet_pipe", 0.5):
+        # pyxform's own sheet code (headers, rows, typed cells) against the model, grid by grid
+        FN.sheet_pipe_case(ctx, grids, "xls")
+        FN.sheet_pipe_case(ctx, grids, "xlsx")
 
     for container, data in rendered.items():
         chans = C.channels_for(container)
@@ -705,8 +709,8 @@ def explore(ctx, factor, bs):
             for case in directed_cases():
                 case_run(ctx, case, scratch, full=True)
             fixtures_case(ctx)
-        FN.explore_fn(ctx, rng, ctx.pick(400, 20000) * factor, scratch)
-        n = ctx.pick(60, 1500) * factor
+        FN.explore_fn(ctx, rng, ctx.pick(400, 8000) * factor, scratch)
+        n = ctx.pick(60, 700) * factor
         knobs = {"per_container": ctx.pick(3, 5), "p_both": 0.3}
         for i in range(n):
             case = gen_case(rng, knobs)
